@@ -122,6 +122,8 @@ def solve_one(job, timeout, workdir):
     ob, txt, names = job
     h = hashlib.sha256(txt.encode()).hexdigest()[:16]
     path = os.path.join(workdir, "%s.smt2" % h)
+    if os.environ.get("PYVC_KEEP"):
+        with open(os.path.join(workdir, "index.txt"), "a") as f: f.write("%s %s\n" % (h, ob.name))
     with open(path, "w") as f: f.write(txt)
     attempts = []
     want = ob.expect
@@ -139,6 +141,8 @@ def solve_one(job, timeout, workdir):
 
 def solve_all(obs, timeout=60, jobs=None, workdir=None):
     jobs = jobs or max(2, (os.cpu_count() or 4) - 2)
+    if workdir is None and os.environ.get("PYVC_KEEP"):
+        workdir = os.environ["PYVC_KEEP"]; os.makedirs(workdir, exist_ok=True)
     own = workdir is None
     workdir = workdir or tempfile.mkdtemp(prefix="pyvc_smt_")
     try:
